@@ -187,6 +187,8 @@ def _int_spec(p: StrOf) -> bool:
     v = p.value
     spec = p.spec or ""
     is_int = isinstance(v, Num) and v.is_int or (isinstance(v, Const) and isinstance(v.v, int))
+    import re
+    spec = re.sub(r"\{.*\}", "", spec)     # nested replacement fields are widths, not presentation types
     return bool(is_int) and not any(c in spec for c in "eEgG%")
 
 
